@@ -286,5 +286,5 @@ def _w27() -> bool:
         return True
 
 
-KNOWN_CLASSES = {"adjacent_comments": _d27}
-WITNESSES = {"D27": _w27}
+KNOWN_CLASSES: dict = {}      # D27 (adjacent comments) does not change the *data*; it is a finding of C12
+WITNESSES: dict = {}
